@@ -56,6 +56,7 @@ type Plan struct {
 	Scenario []ClientOp `json:"scenario"`
 	Faults   []Fault    `json:"faults"`
 	Probes   []ClientOp `json:"probes,omitempty"` // Get queries issued at quiescence
+	Store    *StorePlan `json:"store,omitempty"`  // C15: store-level scenario
 	Sweep    *SweepSpec `json:"sweep,omitempty"`  // C07: fault position relative to the crash-free run (resolved by the runner)
 	Sched    Sched      `json:"sched"`
 }
